@@ -17,21 +17,27 @@ BankOf(cfg, a) == LET d == Decode(cfg.geom, a) IN d.rank * cfg.nbanks + d.bank
 InitRsp(cfg) == [off |-> [p \in 0..cfg.nports - 1 |-> 0 - 1],          \* time of the pending offer, -1 = none
                  offb |-> [p \in 0..cfg.nports - 1 |-> 0],              \* bank the pending offer addresses
                  holders |-> [p \in 0..cfg.nports - 1 |-> {}],          \* other ports served by that bank while p waits
+                 lasth |-> [p \in 0..cfg.nports - 1 |-> 0 - 1],         \* the port that bank served last while p waits
+                 runs |-> [p \in 0..cfg.nports - 1 |-> 0],              \* number of uninterrupted runs of one port on that bank while p waits
                  wq  |-> [p \in 0..cfg.nports - 1 |-> <<>>],           \* accept times of outstanding writes
                  rq  |-> [p \in 0..cfg.nports - 1 |-> <<>>],
                  worstAcc |-> 0, worstDat |-> 0]
 
 RspStep(cfg, bacc, bdat, s, e) ==
-  CASE e.c = "OFFER" -> [s |-> [s EXCEPT !.off[e.p] = e.t, !.offb[e.p] = BankOf(cfg, e.a), !.holders[e.p] = {}], bad |-> {}]
+  CASE e.c = "OFFER" -> [s |-> [s EXCEPT !.off[e.p] = e.t, !.offb[e.p] = BankOf(cfg, e.a), !.holders[e.p] = {},
+                                          !.lasth[e.p] = 0 - 1, !.runs[e.p] = 0], bad |-> {}]
     [] e.c = "CMD" ->
         LET p == e.p  w == IF s.off[p] < 0 THEN 0 ELSE e.t - s.off[p]
             b == BankOf(cfg, e.a)
-            s0 == [s EXCEPT !.holders = [q \in DOMAIN s.holders |-> IF q # p /\ s.off[q] >= 0 /\ s.offb[q] = b
-                                                                      THEN s.holders[q] \cup {p} ELSE s.holders[q]]]
+            waits(q) == q # p /\ s.off[q] >= 0 /\ s.offb[q] = b
+            s0 == [s EXCEPT !.holders = [q \in DOMAIN s.holders |-> IF waits(q) THEN s.holders[q] \cup {p} ELSE s.holders[q]],
+                            !.runs = [q \in DOMAIN s.runs |-> IF waits(q) /\ s.lasth[q] # p THEN s.runs[q] + 1 ELSE s.runs[q]],
+                            !.lasth = [q \in DOMAIN s.lasth |-> IF waits(q) THEN p ELSE s.lasth[q]]]
             s1 == [s0 EXCEPT !.off[p] = 0 - 1, !.worstAcc = IF w > s.worstAcc THEN w ELSE s.worstAcc]
             s2 == IF e.we THEN [s1 EXCEPT !.wq[p] = Append(s.wq[p], e.t)] ELSE [s1 EXCEPT !.rq[p] = Append(s.rq[p], e.t)]
-            \* how many OTHER ports the addressed bank served during the wait: exactly one = a single port held the bank
-        IN [s |-> s2, bad |-> IF w > bacc THEN {<<"offered command accepted later than Bacc", p, s.off[p], e.t, bacc, Cardinality(s.holders[p])>>} ELSE {}]
+            \* how many OTHER ports the addressed bank served during the wait and in how many uninterrupted runs: runs = ports
+            \* means each of them held the bank for one continuous stream (no rotation of the grant among them)
+        IN [s |-> s2, bad |-> IF w > bacc THEN {<<"offered command accepted later than Bacc", p, s.off[p], e.t, bacc, Cardinality(s.holders[p]), s.runs[p]>>} ELSE {}]
     [] e.c = "WDATA" ->
         LET p == e.p IN
         IF s.wq[p] = <<>> THEN [s |-> s, bad |-> {}]
@@ -46,7 +52,7 @@ RspStep(cfg, bacc, bdat, s, e) ==
               bad |-> IF w > bdat THEN {<<"read data later than Bdat", p, Head(s.rq[p]), e.t, bdat>>} ELSE {}]
     [] e.c = "END" ->
         [s |-> s,
-         bad |-> {<<"offered command never accepted", p, s.off[p], e.t, bacc, Cardinality(s.holders[p])>> : p \in {q \in DOMAIN s.off : s.off[q] >= 0 /\ e.t - s.off[q] > bacc}}
+         bad |-> {<<"offered command never accepted", p, s.off[p], e.t, bacc, Cardinality(s.holders[p]), s.runs[p]>> : p \in {q \in DOMAIN s.off : s.off[q] >= 0 /\ e.t - s.off[q] > bacc}}
                  \cup {<<"accepted write never got its data strobe", p, Head(s.wq[p]), e.t, bdat>> : p \in {q \in DOMAIN s.wq : s.wq[q] # <<>> /\ e.t - Head(s.wq[q]) > bdat}}
                  \cup {<<"accepted read never got its data", p, Head(s.rq[p]), e.t, bdat>> : p \in {q \in DOMAIN s.rq : s.rq[q] # <<>> /\ e.t - Head(s.rq[q]) > bdat}}]
     [] OTHER -> [s |-> s, bad |-> {}]
